@@ -106,6 +106,15 @@ JOBS = [
     Job('DMS.DecodeAngle', 'DMS::DecodeAngle', ['C10', 'C13', 'C14'], replace=[('DMS::Decode', dict(select=r'string', may_throw=True))], description='arc angle'),
     Job('DMS.DecodeAzimuth', 'DMS::DecodeAzimuth', ['C10', 'C13', 'C14'], replace=[('DMS::Decode', dict(select=r'string', may_throw=True)), 'Math::AngNormalize'],
         description='azimuth'),
+    # ---- geodesic series coefficient tables (C01 clause b)
+    Job('Geodesic.A3coeff', 'Geodesic::A3coeff', ['C01', 'C13'], unwind=9, timeout=300, description='series coefficient table: consumed exactly, member array filled exactly'),
+    Job('Geodesic.C3coeff', 'Geodesic::C3coeff', ['C01', 'C13'], unwind=9, timeout=300, description='series coefficient table: consumed exactly, member array filled exactly'),
+    Job('Geodesic.C4coeff', 'Geodesic::C4coeff', ['C01', 'C13'], unwind=9, timeout=300, description='series coefficient table: consumed exactly, member array filled exactly'),
+    Job('Geodesic.A1m1f', 'Geodesic::A1m1f', ['C01', 'C13', 'C14'], unwind=9, timeout=300, description='series coefficient evaluation: table reads in bounds'),
+    Job('Geodesic.A2m1f', 'Geodesic::A2m1f', ['C01', 'C13', 'C14'], unwind=9, timeout=300, description='series coefficient evaluation: table reads in bounds'),
+    Job('Geodesic.C1f', 'Geodesic::C1f', ['C01', 'C13', 'C14'], unwind=9, timeout=300, description='series coefficient evaluation: table consumed exactly, output array in bounds'),
+    Job('Geodesic.C1pf', 'Geodesic::C1pf', ['C01', 'C13', 'C14'], unwind=9, timeout=300, description='series coefficient evaluation: table consumed exactly, output array in bounds'),
+    Job('Geodesic.C2f', 'Geodesic::C2f', ['C01', 'C13', 'C14'], unwind=9, timeout=300, description='series coefficient evaluation: table consumed exactly, output array in bounds'),
     # ---- output masks / line objects (C12), ranges (C01)
     Job('GeodesicLine.GenPosition', 'GeodesicLine::GenPosition', ['C12', 'C01', 'C13', 'C14'], const_classes=['<Geodesic'], timeout=600,
         replace=['Math::sincosd', 'Math::atan2d', ('Math::AngNormalize', dict(ghost=False)), 'Geodesic::SinCosSeries', 'GeodesicLineExact::GenPosition'],
